@@ -1,6 +1,7 @@
 import TongoModel.BitOps
 import TongoProofs.Lemmas.BitStringRound
 import TongoProofs.Lemmas.MinBitsGen
+import TongoProofs.Lemmas.GenTiesA
 import TongoProofs.Lemmas.BitStringFift
 import TongoProofs.Lemmas.BitStringCanon
 import TongoProofs.Lemmas.BitStringTopUp
@@ -105,6 +106,18 @@ theorem gen_minBitsRequired (x : BitVec 64) : (Gen.MinBits.minBitsRequired x).to
 theorem gen_minBitsRequired_is_bitLength (x : BitVec 64) :
     (Gen.MinBits.minBitsRequired x).toNat = Ideal.bitLength x.toNat := by
   rw [gen_minBitsRequired_eq, minBitsRequired_eq_bitLength _ x.isLt]
+
+/-- tie (X4, regenerated from boc/bitString.go): the width `ln := minBitsRequired(uint64(n))` read by `ReadLimUint(n)`,
+as REGENERATED on every run, is the model's `minBitsRequired` (the width `readLimUint` passes to `readUint`). -/
+theorem gen_readLimUintWidth (n : BitVec 64) :
+    (Gen.MinBits.readLimUintWidth n).toNat = minBitsRequired n.toNat :=
+  GenTies.gen_readLimUintWidth n
+
+/-- tie (X4, regenerated from boc/bitString.go): the width written by `WriteLimUint(val, n)`, as REGENERATED on every
+run, is the model's `minBitsRequired` (the width `writeLimUint` passes to `writeUint`). -/
+theorem gen_writeLimUintWidth (n : BitVec 64) :
+    (Gen.MinBits.writeLimUintWidth n).toNat = minBitsRequired n.toNat :=
+  GenTies.gen_writeLimUintWidth n
 
 /-- `WriteLimUint(v, n)` writes `v` on `bitlen n` bits. -/
 theorem writeLimUint_is_bits (v n : Nat) (hn : n < 2 ^ 64) :
